@@ -1,7 +1,7 @@
 (** C11 — executable model of the genetic maps of pybrops
       pybrops/popgen/gmap/StandardGeneticMap.py, pybrops/popgen/gmap/ExtendedGeneticMap.py
         (constructor: lexsort by (chromosome, physical, genetic) + group; build_spline; interp_genpos; interp_gmap;
-         congruence; gdist1g/gdist2g/gdist1p/gdist2p)
+         congruence; select / remove / remove_discrepancies (re-sort, re-group, rebuild the spline); gdist1g/gdist2g/gdist1p/gdist2p)
       pybrops/popgen/gmap/DenseGeneticMappableMatrix.py  (interp_xoprob)
       pybrops/popgen/gmap/util.py (cM2d)
     Positions are modelled twice: exactly in Q (the theorems are about this model) and bit-exactly in binary64
@@ -80,10 +80,13 @@ Fixpoint congruence_from (prev : option row) (l : list row) : list bool :=
 Definition congruence (rows : list row) : list bool := congruence_from None rows.
 Definition is_congruent (rows : list row) : bool := forallb (fun b => b) (congruence rows).
 
-(** remove_discrepancies(): if some marker is flagged, keep the markers flagged congruent (select(mask)), then re-sort and
-    re-group; the interpolation spline is *not* rebuilt (as coded) *)
+(** select(mask) (remove(indices) is its complement): keep the chosen markers, then re-sort and re-group; an existing
+    interpolation spline is rebuilt from the remaining markers (build_spline with the stored kind / fill value) *)
+Definition select_rows (rows : list row) (mask : list bool) : list row :=
+  sort_rows (map fst (filter snd (combine rows mask))).
+(** remove_discrepancies(): if some marker is flagged, keep the markers flagged congruent (select(mask)) *)
 Definition rd_rows (rows : list row) : list row :=
-  if is_congruent rows then rows else sort_rows (map fst (filter snd (combine rows (congruence rows)))).
+  if is_congruent rows then rows else select_rows rows (congruence rows).
 
 (** * splines (build_spline): per chromosome the (physical, genetic) knots selected by the mask chrgrp == grp, in array
       order; interp1d(assume_sorted = False) then sorts them by x with a stable sort (argsort, kind = "mergesort") *)
@@ -154,9 +157,22 @@ Definition gdist1p (rows : list row) (query : list (Z * Z)) (ast asp : option Z)
 Definition gdist2p (rows : list row) (query : list (Z * Z)) (rst rsp cst csp : option Z) : list (list ext) :=
   gdist2g (map fst query) (interp_genpos rows query) rst rsp cst csp.
 
-(** * interp_gmap: a new map on the query markers; the grouping metadata is *copied from the source map* (as coded) *)
-Definition interp_gmap (input : list row) (query : list (Z * Z)) :=
-  (query, interp_genpos (gm_rows input) query, gm_meta input).
+(** * after remove_discrepancies() / select() / remove(): interp_genpos uses the spline rebuilt from the remaining markers *)
+Definition rd_interp_pos (rows : list row) (cx : Z * Z) : ext := interp_pos (rd_rows rows) cx.
+Definition rd_interp_genpos (rows : list row) (query : list (Z * Z)) : list ext := map (rd_interp_pos rows) query.
+(** the FORMER code (before the repair of C11-stale-spline-after-remove-discrepancies) kept the spline built from the
+    unreduced rows; kept as a regression witness only *)
+Definition old_rd_interp_pos (rows : list row) (cx : Z * Z) : ext := interp_pos rows cx.
+
+(** * interp_gmap: a new map on the query markers, in query order, with the interpolated positions and a copy of the
+      source map's spline; it is constructed with auto_group = False and carries no grouping metadata ([None]) *)
+Definition meta_t : Type := list Z * list Z * list Z * list Z.
+Definition interp_gmap (input : list row) (query : list (Z * Z)) : list (Z * Z) * list ext * option meta_t :=
+  (query, interp_genpos (gm_rows input) query, None).
+(** the FORMER code (before the repair of C11-interp-gmap-stale-groups) copied the source map's grouping metadata onto the
+    new map; kept as a regression witness only *)
+Definition old_interp_gmap (input : list row) (query : list (Z * Z)) : list (Z * Z) * list ext * option meta_t :=
+  (query, interp_genpos (gm_rows input) query, Some (gm_meta input)).
 
 (** * DenseGeneticMappableMatrix.interp_xoprob on a grouped variant matrix:
       variants sorted by (chromosome, physical); genetic positions interpolated; the crossover probability of a variant is
@@ -166,6 +182,10 @@ Definition pair_leb (a b : Z * Z) : bool :=
 Fixpoint insert_pair (x : Z * Z) (l : list (Z * Z)) : list (Z * Z) :=
   match l with [] => [x] | y :: t => if pair_leb x y then x :: y :: t else y :: insert_pair x t end.
 Definition sort_pairs (l : list (Z * Z)) : list (Z * Z) := fold_right insert_pair [] l.
+(** first use of the map returned by interp_gmap (is_congruent() / interp_genpos() call group()): its markers are sorted by
+    (chromosome, physical) and it computes the grouping of its OWN label array *)
+Definition igmap_markers (query : list (Z * Z)) : list (Z * Z) := sort_pairs query.
+Definition igmap_group (query : list (Z * Z)) : meta_t := group_meta (map fst (igmap_markers query)).
 Definition gmat_genpos (rows : list row) (variants : list (Z * Z)) : list ext :=
   interp_genpos rows (sort_pairs variants).
 Definition gmat_gaps (rows : list row) (variants : list (Z * Z)) : list ext :=
